@@ -96,6 +96,9 @@ for isa in ("x86", "aarch64"):
                         if missing != "none" and (tables != "typed" or found != "full" or mult):
                             continue
                         SCENARIOS.append(dict(isa=isa, role=role, tables=tables, mult=mult, found=found, missing=missing))
+        # mnemonic written in upper case (statement C07: the mnemonic agrees case-insensitively, with the suffix fall-backs)
+        for found in ("full", "suffix"):
+            SCENARIOS.append(dict(isa=isa, role=role, tables="typed", mult=False, found=found, missing="none", upper=True))
         # register form with alternative port assignments (a dict of micro-op lists)
         SCENARIOS.append(dict(isa=isa, role=role, tables="typed", mult=False, found="full", missing="none", alternatives=True))
 
@@ -143,6 +146,8 @@ def compose_unit(isa):
                 uops_b = [[sn("rc2"), "1"]]
                 entry_uops = {0: uops, 1: uops_b} if alts else uops
                 mn_full = "addq" if isa == "x86" else "add.s"
+                if sc.get("upper"):
+                    mn_full = mn_full.upper()
                 entry = new("InstructionForm", mnemonic="ADD", operands=[reg("gpr") if isa == "x86" else new("RegisterOperand", prefix="x"),
                                                                            reg("gpr") if isa == "x86" else new("RegisterOperand", prefix="x")],
                             throughput=None if missing == "tp" else sn("tp"), latency=None if missing == "lat" else sn("lat"), port_pressure=entry_uops)
@@ -224,7 +229,7 @@ def compose_unit(isa):
                 g.append(z3.BoolVal((FL["TP"] in f["_flags"]) == (missing == "tp") and (FL["LT"] in f["_flags"]) == (missing == "lat")))
                 return z3.And(g)
 
-            tag = f"{role}/{tables}/mult={int(mult)}/{found}/missing={missing}" + ("/alternatives" if alts else "")
+            tag = f"{role}/{tables}/mult={int(mult)}/{found}/missing={missing}" + ("/alternatives" if alts else "") + ("/upper-case" if sc.get("upper") else "")
             res.add_paths(paths, post, kind=tag, label="Pb")
             for p in paths:
                 if p.outcome[0] == "ret":
